@@ -66,6 +66,9 @@ def solve(formula, display=True, log=False, params={}):
                 solver.Add(left == const[j])
             else:
                 solver.Add(left <= const[j])
+        else:
+            row_lb = const[j] - left if sense[j] == 1 else -solver.infinity()
+            solver.Constraint(row_lb, const[j] - left)
 
     if display:
         print('Being solved by OR-Tools...', flush=True)
